@@ -796,22 +796,36 @@ def r5_dispatch(ctx):
     ok = need <= labels
     yield Ob('validation:IsValidDataType dispatches every X12 type', ok, ctx.floc(fn),
              '' if ok else 'no branch for %s' % sorted(need - labels))
-    # each recogniser failure leads to rejection
-    for lab, body, extra, node in arms:
-        if lab in ('ID', 'AN', 'DT', 'D8', 'D6', 'TM', 'N', 'R') :
-            calls = [c for st in body for c in A.calls_in(st)]
-            tests = [st for st in body if isinstance(st, ast.If)]
-            ok = len(tests) == 1 and _leads_to_reject_if(tests[0])
-            yield Ob('validation:IsValidDataType[%s] failed recogniser rejects' % lab, ok, ctx.floc(fn, node),
-                     '' if ok else 'branch does not reject on recogniser failure')
-            if ok:
-                t = tests[0].test
-                neg = isinstance(t, ast.UnaryOp) and isinstance(t.op, ast.Not)
-                callee = A.call_target(t.operand if neg else t)[1] if isinstance(t.operand if neg else t, ast.Call) else None
-                want_neg = callee != 'not_match_re'
-                ok2 = callee is not None and neg == want_neg
-                yield Ob('validation:IsValidDataType[%s] polarity' % lab, ok2, ctx.floc(fn, tests[0]),
-                         '' if ok2 else 'test `%s` has the wrong polarity for %s' % (norm(t), callee))
+    # the verdict for a type is exactly the verdict of its recogniser (negated for the "contains an invalid character"
+    # recogniser): decided by constant propagation through the function with the recognisers as oracles
+    from ..absint import explore
+    g = ctx.cfg(fn)
+    ORACLE = {'N': ('match_re', False), 'N0': ('match_re', False), 'R': ('match_re', False), 'ID': ('not_match_re', True), 'AN': ('not_match_re', True),
+              'DT': ('is_valid_date', False), 'D8': ('is_valid_date', False), 'D6': ('is_valid_date', False), 'TM': ('is_valid_time', False)}
+    for lab, (callee, negate) in sorted(ORACLE.items()):
+        bad = []
+        for answer in (True, False):
+            funcs = {'match_re': lambda *a_: None, 'not_match_re': lambda *a_: None, 'is_valid_date': lambda *a_: None, 'is_valid_time': lambda *a_: None,
+                     'isinstance': lambda *a_: True}
+            funcs[callee] = lambda *a_, r_=answer: r_
+            outs = []
+
+            def on_node(nd, env, funcs=funcs):
+                if nd.kind == 'return':
+                    try:
+                        outs.append(A.ev(nd.ast.value, env, funcs) if nd.ast.value is not None else None)
+                    except (A.NotClosed, TypeError):
+                        outs.append('?')
+            try:
+                explore(g, {'data_type': lab, 'str_val': 'X', 'string_types': str, 'charset': 'B', 'icvn': '00401'}, funcs=funcs, on_node=on_node)
+            except RuntimeError as e:
+                raise AnalysisError('IsValidDataType: %s' % e)
+            vals = {bool(o) if o != '?' else '?' for o in outs}
+            want = (not answer) if negate else answer
+            if vals != {want}:
+                bad.append('%s(...) = %s gives %s' % (callee, answer, sorted(map(str, vals))))
+        yield Ob('validation:IsValidDataType[%s] failed recogniser rejects' % lab, not bad, ctx.floc(fn),
+                 '' if not bad else 'the verdict for type %s is not that of %s: %s' % (lab, callee, '; '.join(bad)))
     # RD8
     rd8 = [a for a in arms if a[0] == 'RD8']
     if not rd8:
